@@ -136,7 +136,7 @@ impl Prop for C02 {
         "each evaluation = one archive produced by a simulated create of the C01 space (so on every schedule-dependent layout), parsed by agcref - an independent reader written from the format rules only (footer + directory, length-prefixed big-endian integers, params, collection streams with name delta coding and the in-group-id predictor, x<base64>r/d naming, marker-tagged zstd / tuple-packed parts, 0xFF-separated packs of 50, raw-group placeholder, LZ-diff V2 text): it must recover every sample identically to the input, report no addressing/metadata rule violation (one reference part per LZ group, id->pack mapping, raw length = decoded length, metadata convention, stream ids 0-2, version 3.0), and agree with ragc's reader on all segment tables. distinct_nontrivial = distinct (schedule trace, archive bytes) digests among runs with >=2 tasks and >=1 preemption."
     }
     fn runs(&self, tier: Tier) -> u64 {
-        match tier { Tier::Quick => 25_000, Tier::Thorough => 2_000_000 }
+        match tier { Tier::Quick => 25_000, Tier::Thorough => 1_200_000 }
     }
     fn run_chunk(&self, ctx: &Ctx, indices: &[u64]) -> Vec<RunReport> {
         let specs: Vec<PipeSpec> = indices.iter().map(|&i| pipeline::generate(seed::run_seed(ctx.base_seed ^ 0xC02, i))).collect();
